@@ -17,6 +17,7 @@ package main
 
 import (
 	"fmt"
+	"hash/fnv"
 	"math"
 	"runtime"
 	"sort"
@@ -391,7 +392,9 @@ func c39CheckLayout(run *ev.Run, li int, l c39Layout, nSeeds int, report func(in
 	}
 	sort.Strings(outs)
 	run.Add(1, 0, 0)
-	run.Outcome(fmt.Sprintf("%v|%v", l, outs))
+	h := fnv.New64a()
+	fmt.Fprintf(h, "%v|%v", l, outs)
+	run.Outcome(fmt.Sprintf("%016x", h.Sum64())) // (layout, set of selections over the seeds), hashed to bound memory
 	if li%9973 == 0 {
 		run.Sample(map[string]any{"layout": l.String(), "selections_over_seeds": outs})
 	}
